@@ -237,7 +237,10 @@ class Parser:
                 self.eat()
                 e = ("mem", e, self.eat("id"))
             elif self.at("op", "->"):
-                raise Refuse(f"{self.fn}: '->'")
+                if e != ("id", "this"):
+                    raise Refuse(f"{self.fn}: '->' on something other than this")
+                self.eat()
+                e = ("mem", e, self.eat("id"))
             elif self.at("op", "["):
                 self.eat()
                 ix = self.expr()
@@ -1338,6 +1341,20 @@ def run(repo):
             c = Compiler(fn)
             parts.append(f"/-! ### `Xml::Private::{fn}`" + (f" (behind its leading `{lead}();`)" if lead else "") + " -/\n\n" +
                          (lambda d: render(d, c.preds, c.sets))(c.function(parse_body(body, fn), lead)))
+        # the loop over ONE processing instruction in front of the root: body of `while(*pos.pos == '<' && pos.pos[1] == '?')`
+        # of Xml::Private::parse, without its trailing `skipSpace();`
+        pb = parse_body(function_body(srcc, r"bool\s+Xml::Private::parse\(const char\*\s*data,\s*Element&\s*element\)", "parse"), "parse")
+        ws = [x for x in pb if x[0] == "while"]
+        want = ("bin", "&&", ("bin", "==", ("un", "*", ("mem", ("id", "pos"), "pos")), ("chr", 60)),
+                ("bin", "==", ("idx", ("mem", ("id", "pos"), "pos"), ("num", 1)), ("chr", 63)))
+        if len(ws) != 1 or ws[0][1] != want:
+            raise Refuse("parse: the loop `while(*pos.pos == '<' && pos.pos[1] == '?')` not found")
+        wb = ws[0][2]
+        if not wb or wb[-1] != ("expr", ("call", ("id", "skipSpace"), [])):
+            raise Refuse("parse: the processing-instruction loop does not end with skipSpace()")
+        c = Compiler("parsePi")
+        parts.append("/-! ### `Xml::Private::parse`: one processing instruction `<?…?>` (body of the prologue loop, without its trailing `skipSpace();`) -/\n\n" +
+                     (lambda d: render(d, c.preds, c.sets))(c.function(wb[:-1])))
     except Refuse as e:
         return False, f"Xml.cpp / String.hpp outside the translated subset: {e}"
     except (IndexError, KeyError, TypeError, ValueError) as e:
